@@ -70,7 +70,8 @@ def gen(data: bytes):
                     family=fam)
     return {"a": S.shuffled_recipe(tp, m),
             "mapping": gen_mapping(tp, m.atoms),
-            "nfollow": 1 + tp.below(8), "tseed": tp.below(1 << 30)}
+            "nfollow": 1 + tp.below(8), "tseed": tp.below(1 << 30),
+            "warm": tp.pick([0, 0, 1, 2, 3])}
 
 
 def shrink(case):
@@ -120,6 +121,9 @@ def check_case(ctx, case):
     mrel = ma.relabel(mp)
     want = mrel.snapshot()
     g = rc.build(case["a"])
+    from vp import ops as O
+    with guard(f"C11/{cls}/read-only-use-before"):
+        O.pre_use(g, case.get("warm", 0))
     s0 = snapshot(g, f"C11/{cls}/source")
     # --- copy variant
     with guard(f"C11/{cls}/copy/relabel"):
@@ -132,6 +136,8 @@ def check_case(ctx, case):
           "source after relabel_atoms(copy=True)")
     # --- in place
     g2 = rc.build(case["a"])
+    with guard(f"C11/{cls}/read-only-use-before"):
+        O.pre_use(g2, case.get("warm", 0))
     with guard(f"C11/{cls}/inplace/relabel"):
         ret = g2.relabel_atoms(dict(mp), copy=False)
     _same("inplace/diverges", cls, snapshot(g2, f"C11/{cls}/inplace"), want,
